@@ -21,8 +21,18 @@ import (
 
 // pkgSrc is the source of one analysed package: absolute file name -> content.
 type pkgSrc struct {
-	files map[string][]byte
-	order []string
+	files     map[string][]byte
+	order     []string
+	generated []string // cgo-generated files (not in GoFiles)
+}
+
+func (p *pkgSrc) isGenerated(name string) bool {
+	for _, g := range p.generated {
+		if g == name {
+			return true
+		}
+	}
+	return false
 }
 
 func newPkgSrc() *pkgSrc { return &pkgSrc{files: map[string][]byte{}} }
@@ -120,7 +130,11 @@ func checkPositions(ps *pkgSrc, d runner.Diagnostic) []violation {
 		}
 	}
 	for _, rel := range d.Related {
-		if src, ok := ps.files[rel.Position.Filename]; ok && hasLineDirectiveOrCgo(src) {
+		// related information may legitimately point into other packages
+		// (SA4023 points at the function that returns the typed nil); only
+		// positions inside this package can be validated
+		src, ok := ps.files[rel.Position.Filename]
+		if !ok || hasLineDirectiveOrCgo(src) {
 			continue
 		}
 		if _, msg := ps.posOffset(rel.Position); msg != "" {
